@@ -4,6 +4,8 @@ C07N, target 4: histories of the search operations of the network.
 import OratioProofs.Lemmas.NetCons3
 import OratioProofs.Lemmas.NetCons4
 import OratioProofs.Lemmas.NetCons5
+import OratioProofs.Lemmas.NetCons6
+import OratioProofs.Lemmas.NetCons7
 
 set_option linter.unusedSimpArgs false
 set_option linter.unusedVariables false
@@ -30,6 +32,7 @@ inductive NetOp where
   | lraNewRel (rel : LRel) (a b : Lin)
   | idlNewRel (rel : Dl.Rel) (a b : Lin)
   | rdlNewRel (rel : Dl.Rel) (a b : Lin)
+  | lraNewEq (a b : Lin)
 
 /-- network together with the ghost set of added clauses -/
 structure NetRun where
@@ -51,7 +54,8 @@ def NetRun.pre (r : NetRun) : NetOp → Bool
   | .idlNewDistance f g _ => !r.n.sat.dead && r.n.sat.rootLevel && decide (f < r.n.idl.nVars) && decide (g < r.n.idl.nVars)
   | .rdlNewDistance f g _ => !r.n.sat.dead && r.n.sat.rootLevel && decide (f < r.n.rdl.nVars) && decide (g < r.n.rdl.nVars)
   | .bj _ => !r.n.sat.dead && r.n.sat.queue.isEmpty
-  | .lraNewVarLin _ | .lraNewRel _ _ _ | .idlNewRel _ _ _ | .rdlNewRel _ _ _ => !r.n.sat.dead && r.n.sat.rootLevel
+  | .lraNewVarLin _ | .lraNewRel _ _ _ | .idlNewRel _ _ _ | .rdlNewRel _ _ _ | .lraNewEq _ _ =>
+    !r.n.sat.dead && r.n.sat.rootLevel
 
 /-- one call; the boolean is the answer (`true` for calls without a verdict) -/
 def NetRun.step (fuel : Nat) (r : NetRun) (op : NetOp) : Option (NetRun × Bool) :=
@@ -79,6 +83,7 @@ def NetRun.step (fuel : Nat) (r : NetRun) (op : NetOp) : Option (NetRun × Bool)
   | .lraNewRel rel a b => (Net.lraNewRel r.n rel a b).map fun (_, n') => (⟨n', r.orig⟩, true)
   | .idlNewRel rel a b => (Net.idlNewRel r.n rel a b).map fun (_, n') => (⟨n', r.orig ++ n'.sat.toEnc.cnf⟩, true)
   | .rdlNewRel rel a b => (Net.rdlNewRel r.n rel a b).map fun (_, n') => (⟨n', r.orig ++ n'.sat.toEnc.cnf⟩, true)
+  | .lraNewEq a b => (Net.lraNewEq r.n a b).map fun (_, n') => (⟨n', r.orig ++ n'.sat.toEnc.cnf⟩, true)
 
 /-- the numeric side conditions of the difference-logic constructors: the no-overflow room of C10 (`K`
     bounds the constants, `4·(n+2)·K < inf`) for IDL; finite weights with an integer ε part for RDL -/
@@ -87,16 +92,22 @@ def NetRun.room (r : NetRun) : NetOp → Prop
   | .idlNewDistance f g w => ∃ K E, r.n.idl.Exact K E ∧ Dl.ConstrsOk K r.n.idl ∧ f ≠ g ∧ -K ≤ w ∧ w + 1 ≤ K
   | .rdlNewDistance f g w => f ≠ g ∧ IR.Fin w ∧ w.inf.den = 1
   | .bj cnfl => TEntails r.n r.orig cnfl ∧ ∀ l ∈ cnfl, r.n.sat.value l = some false
-  -- LRA requests: canonical expressions over existing variables (`Lra.LinOK`), and the expression names an
-  -- existing variable: the call creates no slack variable (and so no tableau row)
-  | .lraNewVarLin l => Lra.LinOK r.n.lra l ∧
-      ∀ v n', Net.lraNewVarLin r.n l = some (v, n') → n'.lra.vals.length = r.n.lra.vals.length
-  | .lraNewRel rel a b => Lra.LinOK r.n.lra a ∧ Lra.LinOK r.n.lra b ∧
-      ∀ l n', Net.lraNewRel r.n rel a b = some (l, n') → n'.lra.vals.length = r.n.lra.vals.length
+  -- LRA requests: canonical expressions over existing variables (`Lra.LinOK`)
+  | .lraNewVarLin l => Lra.LinOK r.n.lra l
+  | .lraNewRel _ a b => Lra.LinOK r.n.lra a ∧ Lra.LinOK r.n.lra b
+  | .lraNewEq a b => Lra.LinOK r.n.lra a ∧ Lra.LinOK r.n.lra b
   -- DL requests: the side conditions of `new_distance` for the constraints of the resulting theory
   | .idlNewRel rel a b => ∃ K E, r.n.idl.Exact K E ∧ Dl.ConstrsOk K r.n.idl ∧
       ∀ l n', Net.idlNewRel r.n rel a b = some (l, n') → Dl.ConstrsOk K n'.idl
   | .rdlNewRel rel a b => ∀ l n', Net.rdlNewRel r.n rel a b = some (l, n') → RdlOk n'.rdl
+  | _ => True
+
+/-- "the LRA request creates no slack variable" (the expression names an existing variable): then it creates
+    no tableau row either -/
+def NetRun.noSlack (r : NetRun) : NetOp → Prop
+  | .lraNewVarLin l => ∀ v n', Net.lraNewVarLin r.n l = some (v, n') → n'.lra.vals.length = r.n.lra.vals.length
+  | .lraNewRel rel a b => ∀ l n', Net.lraNewRel r.n rel a b = some (l, n') → n'.lra.vals.length = r.n.lra.vals.length
+  | .lraNewEq a b => ∀ l n', Net.lraNewEq r.n a b = some (l, n') → n'.lra.tableau = r.n.lra.tableau
   | _ => True
 
 /-- the side condition of a call: the conflicts of `lra.check` found above root level cite a literal
@@ -124,6 +135,11 @@ def NetRun.rooms (fuel : Nat) (r : NetRun) : List NetOp → Prop
   | [] => True
   | op :: ops => r.room op ∧ ∀ r' b, r.step fuel op = some (r', b) → NetRun.rooms fuel r' ops
 
+/-- no LRA request of the history creates a slack variable -/
+def NetRun.noSlacks (fuel : Nat) (r : NetRun) : List NetOp → Prop
+  | [] => True
+  | op :: ops => r.noSlack op ∧ ∀ r' b, r.step fuel op = some (r', b) → NetRun.noSlacks fuel r' ops
+
 /-- the invariant between two calls -/
 def NetOK (r : NetRun) : Prop :=
   (∃ L fr, NetInv r.n r.orig L fr) ∧ (r.n.sat.queue = [] ∨ r.n.sat.trailLim = [])
@@ -131,7 +147,7 @@ def NetOK (r : NetRun) : Prop :=
 /-- the initial network satisfies the invariant -/
 theorem netInv_init' : NetInv Net.init [] [] [] := by
   refine ⟨(Sat.init_invB).toS (by decide), (fun c hc => by cases hc), ?_, trivial, rfl,
-    ⟨(fun e he => by cases he), (fun c hc => by cases hc), (fun c hc => by cases hc), Lra.init_good, (fun x b hb => by cases hb)⟩⟩
+    ⟨(fun e he => by cases he), (fun c hc => by cases hc), (fun c hc => by cases hc), Lra.init_good, (fun x b hb => by cases hb), (fun e he => by cases he)⟩⟩
   refine ⟨⟨C09X_init_inv.1, C09X_init_inv.2, (fun e he => by cases he), (fun e he => by cases he), ?_, ?_⟩,
     ⟨⟨10, [], C10_init_exact 10 (by decide), (fun c hc => by cases hc)⟩, C10X_init_pathinv _, Undo.sortedK_nil⟩,
     ⟨⟨[], C10R_init_exact⟩, (fun c hc => by cases hc), C10XR_init_pathinv _, Undo.sortedK_nil, C10R_epsInt_init,
@@ -340,7 +356,7 @@ theorem step_ok {fuel : Nat} {r r' : NetRun} {op : NetOp} {b : Bool} (h : NetOK 
         rw [hp] at he
         simp only [Option.map_some, Option.some.injEq, Prod.mk.injEq] at he
         obtain ⟨rfl, rfl⟩ := he
-        obtain ⟨k1, k2, k3⟩ := hi.at_lraNewVarLin hroot' hm.1 hp (hm.2 v n1 hp)
+        obtain ⟨k1, k2, k3⟩ := hi.at_lraNewVarLinG hroot' hm hp
         exact ⟨⟨⟨L, [], k1⟩, Or.inr (by rw [k3]; exact hroot')⟩, fun d hd => hd, k2, fun e => by cases e⟩
     | lraNewRel rel a c =>
       simp only [NetRun.pre, Bool.and_eq_true, Bool.not_eq_true'] at hpre
@@ -353,7 +369,7 @@ theorem step_ok {fuel : Nat} {r r' : NetRun} {op : NetOp} {b : Bool} (h : NetOK 
         rw [hp] at he
         simp only [Option.map_some, Option.some.injEq, Prod.mk.injEq] at he
         obtain ⟨rfl, rfl⟩ := he
-        obtain ⟨k1, k2, k3, _⟩ := hi.at_lraNewRel hroot' hm.1 hm.2.1 hp (hm.2.2 v n1 hp)
+        obtain ⟨k1, k2, k3, _⟩ := hi.at_lraNewRelG hroot' hm.1 hm.2 hp
         exact ⟨⟨⟨L, [], k1⟩, Or.inr k3⟩, fun d hd => hd, k2, fun e => by cases e⟩
     | idlNewRel rel a c =>
       simp only [NetRun.pre, Bool.and_eq_true, Bool.not_eq_true'] at hpre
@@ -381,6 +397,19 @@ theorem step_ok {fuel : Nat} {r r' : NetRun} {op : NetOp} {b : Bool} (h : NetOK 
         simp only [Option.map_some, Option.some.injEq, Prod.mk.injEq] at he
         obtain ⟨rfl, rfl⟩ := he
         obtain ⟨k1, k2⟩ := hi.at_rdlNewRel hroot' hpre.1 hp (hm v n1 hp)
+        exact ⟨⟨⟨L, [], k1⟩, Or.inr (root_of_inv k1)⟩, fun d hd => List.mem_append_left _ hd, k2, fun e => by cases e⟩
+    | lraNewEq a c =>
+      simp only [NetRun.pre, Bool.and_eq_true, Bool.not_eq_true'] at hpre
+      have hroot' : r.n.sat.trailLim = [] := by simpa [rootLevel] using hpre.2
+      dsimp only at he
+      cases hp : Net.lraNewEq r.n a c with
+      | none => rw [hp] at he; simp at he
+      | some res =>
+        obtain ⟨v, n1⟩ := res
+        rw [hp] at he
+        simp only [Option.map_some, Option.some.injEq, Prod.mk.injEq] at he
+        obtain ⟨rfl, rfl⟩ := he
+        obtain ⟨k1, k2⟩ := hi.at_lraNewEq hroot' hpre.1 hm.1 hm.2 hp
         exact ⟨⟨⟨L, [], k1⟩, Or.inr (root_of_inv k1)⟩, fun d hd => List.mem_append_left _ hd, k2, fun e => by cases e⟩
   · rw [if_pos (by simpa using hpre)] at he
     cases he
@@ -425,8 +454,9 @@ theorem noRows_bj (fuel : Nat) (n : Net) (cnfl : Clause) (ht : n.lra.tableau = [
     | none => exact ⟨trivial, fun b n' he => by simp at he⟩
     | some n2 => exact noRows_propagate fuel n2 (by rw [learnFrom_tableau hlf]; exact ht1)
 
-/-- without rows in the LRA tableau the side condition holds along every history -/
-theorem guards_noRows {fuel : Nat} : ∀ (ops : List NetOp) (r : NetRun), r.n.lra.tableau = [] → r.rooms fuel ops →
+/-- without rows in the LRA tableau, and when no LRA request creates a slack variable, the side condition holds
+    along every history -/
+theorem guards_noRows {fuel : Nat} : ∀ (ops : List NetOp) (r : NetRun), r.n.lra.tableau = [] → r.noSlacks fuel ops →
     r.guards fuel ops
   | [], _, _, _ => trivial
   | op :: ops, r, ht, hm => by
@@ -451,6 +481,7 @@ theorem guards_noRows {fuel : Nat} : ∀ (ops : List NetOp) (r : NetRun), r.n.lr
       | lraNewRel _ _ _ => trivial
       | idlNewRel _ _ _ => trivial
       | rdlNewRel _ _ _ => trivial
+      | lraNewEq _ _ => trivial
       | bj cnfl => exact (noRows_bj fuel r.n cnfl ht).1
       | next => exact fun _ => (noRows_propagate fuel (nextStart r.n) (by
           show r.n.lra.pop.tableau = []
@@ -510,7 +541,7 @@ theorem guards_noRows {fuel : Nat} : ∀ (ops : List NetOp) (r : NetRun), r.n.lr
             simp only [Option.map_some, Option.some.injEq, Prod.mk.injEq] at hs
             rw [← hs.1]
             show res.2.lra.tableau = []
-            rw [lraNewVarLin_tableau hp (hm.1.2 res.1 res.2 hp)]; exact ht
+            rw [lraNewVarLin_tableau hp (hm.1 res.1 res.2 hp)]; exact ht
         | lraNewRel rel a c =>
           dsimp only at hs
           cases hp : Net.lraNewRel r.n rel a c with
@@ -520,7 +551,7 @@ theorem guards_noRows {fuel : Nat} : ∀ (ops : List NetOp) (r : NetRun), r.n.lr
             simp only [Option.map_some, Option.some.injEq, Prod.mk.injEq] at hs
             rw [← hs.1]
             show res.2.lra.tableau = []
-            rw [lraNewRel_tableau hp (hm.1.2.2 res.1 res.2 hp)]; exact ht
+            rw [lraNewRel_tableau hp (hm.1 res.1 res.2 hp)]; exact ht
         | idlNewRel rel a c =>
           dsimp only at hs
           cases hp : Net.idlNewRel r.n rel a c with
@@ -541,6 +572,16 @@ theorem guards_noRows {fuel : Nat} : ∀ (ops : List NetOp) (r : NetRun), r.n.lr
             rw [← hs.1]
             show res.2.lra.tableau = []
             rw [rdlNewRel_lra hp]; exact ht
+        | lraNewEq a c =>
+          dsimp only at hs
+          cases hp : Net.lraNewEq r.n a c with
+          | none => rw [hp] at hs; simp at hs
+          | some res =>
+            rw [hp] at hs
+            simp only [Option.map_some, Option.some.injEq, Prod.mk.injEq] at hs
+            rw [← hs.1]
+            show res.2.lra.tableau = []
+            rw [hm.1 res.1 res.2 hp]; exact ht
         | bj cnfl =>
           dsimp only at hs
           cases hp : r.n.backtrackAnalyzeAndBackjump cnfl fuel with
